@@ -49,7 +49,7 @@ func genC09(t *rapid.T) *C09Case {
 		}
 	}
 	if rapid.Bool().Draw(t, "withdiff") {
-		if !c.Exposure && rapid.IntRange(0, 4).Draw(t, "sparse") == 0 {
+		if !c.Exposure && rapid.IntRange(0, 2).Draw(t, "sparse") == 0 {
 			// a diff of a handful of entries of different categories (changed ingress line + one added line, ...)
 			c.A, c.B = genSparseDiffPair(t)
 			c.Focus = ""
